@@ -32,4 +32,5 @@ def check(repo, rep, tier):
     rb.rule_bind_ownership(em, rep, 'C01.E2')
     rb.rule_at_most_one_yield(em, rep, 'C01.E3')
     rd.rule_neq(em, rep, 'C01.E4')
+    rb.rule_arity_guard(em, rep, 'C01.E5')
     rc.rule_compiler_bounded(cm, rep, 'C01.N2', depth=3, scope=3 if tier == 'thorough' else 2, combs=4 if tier == 'thorough' else 0)
